@@ -254,7 +254,8 @@ def r18_5(ctx, rr):
     if len(bs) != 1:
         raise AnchorMissing("expected the file-backed ShardIterator::next")
     b = bs[0]
-    T = Termizer(F, b)
+    from r_guards import simple_env
+    T = simple_env(F, b)     # immutable locals expanded: `let bucket = &mut store.buckets[i]; bucket.read_exact(..)`
     order = list(walk(b.body))
     pos = {id(n): i for i, n in enumerate(order)}
     pm = {id(n): ps for n, ps in walk_with_parents(b.body)}
